@@ -13,6 +13,7 @@ import (
 	"strconv"
 	"strings"
 	"sync"
+	"sync/atomic"
 	"time"
 
 	"verif/harness/sim"
@@ -194,6 +195,8 @@ func loadFindings() []finding {
 
 const watchdogMarker = "VERIF-RUN-WATCHDOG"
 
+var replaySeq atomic.Int64
+
 func markerLine(out string) string {
 	for _, l := range strings.Split(out, "\n") {
 		if i := strings.Index(l, watchdogMarker); i >= 0 {
@@ -204,6 +207,7 @@ func markerLine(out string) string {
 }
 
 type checker struct {
+	runLimit      int // > 0: VERIF_RUNLIMIT (seconds) handed to replay workers (minimisation of hangs)
 	replayTimeout time.Duration
 	prop          string
 	tier          string
@@ -227,13 +231,16 @@ type replayOut struct {
 
 // replayProgram executes p on node in a fresh process. died=true if the process was killed/crashed.
 func (c *checker) replayProgram(node string, p *sim.Program, log bool) (ro *replayOut, died bool, output string, err error) {
-	f := filepath.Join(c.tmp, fmt.Sprintf("replay-%d.json", time.Now().UnixNano()))
+	f := filepath.Join(c.tmp, fmt.Sprintf("replay-%d-%d.json", time.Now().UnixNano(), replaySeq.Add(1)))
 	os.WriteFile(f, p.JSON(), 0o644)
 	defer os.Remove(f)
 	defer os.Remove(f + ".out")
 	env := []string{"VERIF_MODE=replay", "VERIF_PROP=" + c.prop, "VERIF_PROGRAM=" + f, "VERIF_OUT=" + f + ".out", "VERIF_KNOWN=" + c.known, "VERIF_TIER=" + c.tier}
 	if log {
 		env = append(env, "VERIF_LOG=1")
+	}
+	if c.runLimit > 0 {
+		env = append(env, "VERIF_RUNLIMIT="+strconv.Itoa(c.runLimit))
 	}
 	gmp := 1
 	if p.Cfg != nil && p.Cfg["gomaxprocs"] > 0 {
@@ -335,6 +342,22 @@ func (c *checker) confirm(node string, p *sim.Program) (*sim.Violation, error) {
 		return &sim.Violation{Class: cls, Op: -1, OpKind: kind, Detail: crashDetail(out)}, nil
 	}
 	return ro.V, nil
+}
+
+// shrinkHang minimises a program that does not return. Candidates get a short per-run budget (runs take
+// milliseconds; a candidate that merely became slow is weeded out afterwards, because the caller re-confirms the
+// result with the full budget in two separate executions and falls back to the original otherwise).
+func (c *checker) shrinkHang(node string, p *sim.Program, want *sim.Violation) (*sim.Program, *sim.Violation) {
+	c.runLimit = 4
+	defer func() { c.runLimit = 0 }()
+	best, bv, _ := sim.Shrink(p, want, func(q *sim.Program) *sim.Violation {
+		_, _, _, err := c.replayProgram(node, q, false)
+		if err != nil && strings.Contains(err.Error(), "watchdog") {
+			return &sim.Violation{Class: "hang", Op: want.Op, OpKind: want.OpKind, Detail: want.Detail}
+		}
+		return nil
+	}, 16)
+	return best, bv
 }
 
 func (c *checker) shrink(node string, p *sim.Program, want *sim.Violation) (*sim.Program, *sim.Violation) {
@@ -506,6 +529,16 @@ func check(prop, tier string) int {
 	knownLines := 0
 	findingReplays := 0
 	findingHangs := 0
+	// the recorded programs of all findings of this property, each in a fresh process (in parallel; judged in order)
+	type findingRun struct {
+		f    finding
+		rf   replayFile
+		ro   *replayOut
+		died bool
+		out  string
+		err  error
+	}
+	var fruns []*findingRun
 	for _, f := range findings {
 		if f.Property != prop || f.Replay == "" {
 			continue
@@ -515,17 +548,33 @@ func check(prop, tier string) int {
 			c.infra("finding %s: %v", f.Key, err)
 			continue
 		}
-		var rf replayFile
-		if err := json.Unmarshal(rb, &rf); err != nil || rf.Program == nil {
+		fr := &findingRun{f: f}
+		if err := json.Unmarshal(rb, &fr.rf); err != nil || fr.rf.Program == nil {
 			c.infra("finding %s: bad replay file", f.Key)
 			continue
 		}
+		fruns = append(fruns, fr)
+	}
+	{
+		sem := make(chan struct{}, runtime.NumCPU())
+		var fwg sync.WaitGroup
+		for _, fr := range fruns {
+			fwg.Add(1)
+			sem <- struct{}{}
+			go func(fr *findingRun) {
+				defer func() { <-sem; fwg.Done() }()
+				fr.ro, fr.died, fr.out, fr.err = c.replayProgram(fr.rf.Node, fr.rf.Program, false)
+			}(fr)
+		}
+		fwg.Wait()
+	}
+	for _, fr := range fruns {
+		f, rf, ro, died, out, err := fr.f, fr.rf, fr.ro, fr.died, fr.out, fr.err
 		findingReplays++
-		ro, died, out, err := c.replayProgram(rf.Node, rf.Program, false)
 		if err != nil && strings.Contains(err.Error(), "watchdog") {
 			// the recorded program of a finding no longer returns: confirm (two more executions) and report
-			if findingHangs >= 2 {
-				continue // already reported twice; every further confirmation costs three run budgets
+			if findingHangs >= 1 {
+				continue // already reported; every further confirmation costs two run budgets
 			}
 			if v, cerr := c.confirm(rf.Node, rf.Program); cerr == nil && v != nil {
 				findingHangs++
@@ -861,7 +910,14 @@ func check(prop, tier string) int {
 			seenClass["hang"]++
 		}
 		cand.v = v
-		if v.Class != "hang" {
+		if v.Class == "hang" {
+			sp, _ := c.shrinkHang(cand.node, cand.p, v)
+			if len(sp.JSON()) < len(cand.p.JSON()) {
+				if w, err := c.confirm(cand.node, sp); err == nil && w != nil && w.Class == "hang" {
+					cand.p, cand.v = sp, w
+				}
+			}
+		} else {
 			sp, sv := c.shrink(cand.node, cand.p, v)
 			// the minimised program must itself reproduce in a fresh process; otherwise keep the confirmed original
 			if w, err := c.confirm(cand.node, sp); err == nil && w != nil && w.Class == sv.Class {
